@@ -73,6 +73,44 @@ def _canon_attrs(v):
     return repr(v)
 
 
+def get_table(ctx, program, rid):
+    """State.get interpreted: entity missing -> NameError; attribute missing -> AttributeError; value / attribute found -> returned; malformed names -> NameError."""
+    from ..flow import FlowPolicy, exits, run_flow
+    uid = "state.py::State.get"
+    snap = ObjV("snap", "StateVal")
+    cases = [("d.e", True, "value"), ("d.e", False, "NameError"), ("d.e.a", True, "attr"), ("d.e.missing", True, "AttributeError"), ("d.e.a", False, "NameError"),
+             ("plain", True, "NameError"), ("d.e.a.b", True, "NameError")]
+    for name, exists, want in cases:
+        st = ObjV("st", "State") if exists else NONE
+
+        def getattr_(i, n, a, k, c, o):
+            if a[0] == snap and a[1] == Const("a"):
+                return [(c, Sym(("attr", "a")))]
+            if a[0] == snap:
+                o.add("raise", c.set("$exc", ExcV("AttributeError", "no such attribute")))
+                return []
+            return None
+
+        pol = FlowPolicy(program, may_raise_all=False, cancel=False, summaries={"cls.hass.states.get": lambda i, n, a, k, c, o, st=st: [(c, st)], "StateVal": lambda i, n, a, k, c, o: [(c, snap)],
+                                                                               "getattr": getattr_},
+                         globals_={"StateVal": ClassV("StateVal")})
+        out = run_flow(program, uid, pol, args={"cls": ClassV("State"), "var_name": Const(name)}, heap={"State.service2args": DictV([])})
+        got = set()
+        for k, c, d in exits(out):
+            r = c.env.get("$ret")
+            if k == "raise":
+                got.add(getattr(c.env.get("$exc"), "cls", "?"))
+            elif r == snap:
+                got.add("value")
+            elif r == Sym(("attr", "a")):
+                got.add("attr")
+            else:
+                got.add(repr(r))
+        ctx.check(got == {want}, rid, uid, f"state.get({name!r}), entity {'exists' if exists else 'missing'}", msg=f"State.get({name!r}) with the entity {'present' if exists else 'absent'} gives {sorted(got)}, "
+                  f"specified {want}", key=f"get {name} {exists}", node=program.func(uid), rel="state.py")
+    # delete: the exception types are decided by the table of R16.8
+
+
 def delete_table(ctx, program, rid):
     from ..flow import FlowPolicy, exits, run_flow
     uid = "state.py::State.delete"
@@ -214,21 +252,7 @@ def run(ctx):
 
     # R16.4 exception types -------------------------------------------------------------------------------------------
     ctx.rule("R16.4", "State.get raises NameError for a missing entity and AttributeError for a missing attribute; delete likewise", floor=4)
-    g = program.func("state.py::State.get")
-    raises = [(norm(n.exc.func) if isinstance(n.exc, ast.Call) else norm(n.exc)) for n in body_walk(g) if isinstance(n, ast.Raise) and n.exc is not None]
-    ctx.check(raises.count("NameError") >= 2 and "AttributeError" in raises, "R16.4", "state.py::State.get", "get raises NameError / AttributeError",
-              msg=f"State.get raises {raises}", key="get exception types", node=g, rel="state.py")
-    ok = any(isinstance(t, ast.Try) and any(h.type is not None and norm(h.type) == "AttributeError" and any(isinstance(m, ast.Raise) and "AttributeError" in norm(m) for m in ast.walk(h))
-             for h in t.handlers) for t in body_walk(g))
-    ctx.check(ok, "R16.4", "state.py::State.get", "missing attribute reported as AttributeError naming the entity", msg="State.get no longer converts a missing attribute into AttributeError",
-              key="get missing attribute", node=g, rel="state.py")
-    first_if = [n for n in body_walk(g) if isinstance(n, ast.If) and "not state" in norm(n.test)]
-    ctx.check(bool(first_if) and any(isinstance(m, ast.Raise) and "NameError" in norm(m) for m in first_if[0].body), "R16.4", "state.py::State.get",
-              "missing entity -> NameError", msg="State.get no longer raises NameError when the entity does not exist", key="get missing entity", node=g, rel="state.py")
-    d = program.func("state.py::State.delete")
-    raises = [(norm(n.exc.func) if isinstance(n.exc, ast.Call) else norm(n.exc)) for n in body_walk(d) if isinstance(n, ast.Raise) and n.exc is not None]
-    ctx.check(raises.count("NameError") >= 2 and "AttributeError" in raises, "R16.4", "state.py::State.delete", "delete raises NameError / AttributeError",
-              msg=f"State.delete raises {raises}", key="delete exception types", node=d, rel="state.py")
+    get_table(ctx, program, "R16.4")
 
     ctx.rule("R16.8", "State.delete: `del d.e.attr` removes exactly that attribute whatever its value (None, 0, '' included) and raises AttributeError only when it is absent; "
              "`del d.e` removes the entity or raises NameError; other shapes raise NameError", floor=8)
